@@ -346,7 +346,10 @@ def make_case(rng, host, depth, family, nsteps, name, budget=8, p_bad=0.0):
            "p_noop": 0.0 if direct else 0.15,
            "p_run": 0.0 if direct else 0.1,
            "p_batch": rng.choice([0.0, 0.25, 0.5]) if host == "direct" else 0.0,
-           "p_bad": p_bad if host.startswith("bridge") else 0.0}
+           "p_bad": p_bad if host.startswith("bridge") else 0.0,
+           # long histories keep the outstanding work bounded: that is what "bounded by outstanding work,
+           # not by the length of the history" is about (and what keeps the validator's states small)
+           "max_out": 10 if nsteps >= 200 else 0}
     return {"name": name, "host": host, "progs": progs, "follow": follow, "legacy": legacy,
             "steps": [{"a": "run", "p": 0}], "policy": pol}
 
